@@ -48,6 +48,12 @@ func (a *MajorityStrategy) Compute(snapshots <-chan *asset.Snapshot) <-chan Acti
 		for {
 			buy, hold, sell, ok := CountActions(sources)
 			if !ok {
+				// One of the sources has ended. Consume the others so
+				// that the strategies behind them can finish as well.
+				for _, source := range sources {
+					go helper.Drain(source)
+				}
+
 				break
 			}
 
